@@ -6,10 +6,27 @@ from core.runner import Prop
 from core.rng import SemanticRandom, installed
 
 
+# members are arbitrary hashables: pairs of ints, but also None, strings, numbers, the empty tuple (coded [-1, j] in a case)
+SPECIAL = [None, "x", 0, (), frozenset(), False, ""]
+
+
+def D(e):
+    e = tuple(e)
+    return SPECIAL[e[1]] if len(e) == 2 and e[0] == -1 else e
+
+
+def E(x):
+    for j, sp in enumerate(SPECIAL):
+        if type(x) is type(sp) and x == sp:
+            return (-1, j)
+    return tuple(x)
+
+
 class C20(Prop):
     pid = "C20"
+    case_limit = 20          # a history takes milliseconds; a draw that never returns is cut off after this many seconds
     title = "DrawSet behaves as a set under any history"
-    rule = ("random operation sequences (add/remove/draw/contains/len/iter) over universes of 1-8 integer pairs (every sixtieth case: a set of 258-300 members built first), "
+    rule = ("random operation sequences (add/remove/draw/contains/len/iter) over universes of 1-8 integer pairs (every fifth case also None, '', 'x', 0, False, (), frozenset() as members) (every sixtieth case: a set of 258-300 members built first), "
             "plus every sequence of <= L add/remove operations over a 3-element universe (L=4 quick, 6 thorough); "
             "a case is non-trivial when it performs at least one removal of a present element that is not the last "
             "list slot (the swap-with-last path) or an absent removal; distinct = distinct operation sequence")
@@ -33,6 +50,12 @@ class C20(Prop):
                     seen.add(tuple(e))
                     uniq.append(e)
             universe = uniq
+        if i % 5 == 2:
+            # members that are not pairs: None, a string, 0, the empty tuple ... (any hashable is a legal member)
+            for j in rng.sample(range(len(SPECIAL)), rng.randint(1, 3)):
+                universe.append([-1, j])
+            if [-1, 2] in universe and [-1, 5] in universe:
+                universe.remove([-1, 5])          # 0 == False: one member, not two
         n = rng.randint(1, 80)
         ops = []
         if i % 60 == 9:
@@ -86,12 +109,13 @@ class C20(Prop):
 
             def on_uniform(self, n, ctx):
                 self.n_events += 1
-                return self.i if self.i < n else super().on_uniform(n, ctx)
+                # the scripted outcome answers the first choice of a draw; a draw that asks again is answered by the private RNG
+                return self.i if self.i < n and self.n_events == 1 else super().on_uniform(n, ctx)
 
             def on_float(self, ctx):
                 self.n_events += 1
                 n = len(ds)
-                return (self.i + 0.5) / n if n and self.i < n else super().on_float(ctx)
+                return (self.i + 0.5) / n if n and self.i < n and self.n_events == 1 else super().on_float(ctx)
 
         def state():
             # private representation, observed when it is there (compared with the model's state; not part of the property)
@@ -99,7 +123,7 @@ class C20(Prop):
             return (None if e is None else list(e), None if m is None else dict(m))
 
         def public():
-            return ([tuple(x) for x in ds], len(ds))
+            return ([E(x) for x in ds], len(ds))
         unexpected = 0
         sr = R()
         with installed(sr):
@@ -113,14 +137,14 @@ class C20(Prop):
             if name == "add":
                 e = tuple(op[1])
                 was = e in ref
-                ds.add(e)
+                ds.add(D(e))
                 ref.add(e)
                 if was and (state(), public()) != before:
                     viol.append("add-present-changed-state")
             elif name == "remove":
                 e = tuple(op[1])
                 try:
-                    ds.remove(e)
+                    ds.remove(D(e))
                     if e not in ref:
                         viol.append("remove-absent-did-not-raise")
                     ref.discard(e)
@@ -136,7 +160,7 @@ class C20(Prop):
                 draws.append(i)
                 sr.arm(i)
                 try:
-                    x = ds.draw()
+                    x = E(ds.draw())
                     unexpected += len(sr.unexpected) + (sr.n_events != 1)
                     res = list(x)
                     if tuple(x) not in ref:
@@ -146,13 +170,13 @@ class C20(Prop):
                     if ref:
                         viol.append("draw-raised-on-non-empty")
             elif name == "contains":
-                res = tuple(op[1]) in ds
+                res = D(op[1]) in ds
             elif name == "len":
                 res = len(ds)
             elif name == "iter":
-                res = [list(x) for x in ds]
+                res = [list(E(x)) for x in ds]
             # set-equivalence after every operation
-            it = [tuple(x) for x in ds]
+            it = [E(x) for x in ds]
             if len(ds) != len(ref):
                 viol.append("len-differs-from-set")
             if sorted(it) != sorted(ref):
@@ -160,13 +184,13 @@ class C20(Prop):
             if len(set(it)) != len(it):
                 viol.append("iteration-repeats-a-member")
             for u in case["universe"]:
-                if (tuple(u) in ds) != (tuple(u) in ref):
+                if (D(u) in ds) != (tuple(u) in ref):
                     viol.append("membership-differs-from-set")
             # every member can be drawn: index i draws the i-th listed member
             drawn, scripted = set(), True
             for i in range(len(ds)):
                 sr.arm(i)
-                drawn.add(tuple(ds.draw()))
+                drawn.add(E(ds.draw()))
                 scripted = scripted and not sr.unexpected and sr.n_events == 1
             if not drawn <= ref:
                 viol.append("draw-returned-non-member")
@@ -175,8 +199,8 @@ class C20(Prop):
             unexpected += not scripted
             e, m = state()
             steps.append({"res": res, "state": {
-                "edges": None if e is None else [list(x) for x in e],
-                "map": None if m is None else sorted([list(k), v] for k, v in m.items())}})
+                "edges": None if e is None else [list(E(x)) for x in e],
+                "map": None if m is None else sorted([list(E(k)), v] for k, v in m.items())}})
         return {"steps": steps, "draws": draws, "oracle": sorted(set(viol)), "rng_unexpected": int(unexpected)}
 
     def request(self, case, obs):
